@@ -5,6 +5,7 @@
    declarations SigDecls.v states and the C12 theorems are about. *)
 From Coq Require Import String.
 From GA Require Import Base TypeLevel Sigs SigDecls.
+From GA Require Export SigDefs.
 From GAGen Require Import GenSigs.
 Local Open Scope string_scope.
 
@@ -73,11 +74,6 @@ Lemma tie_tuple_sizes : gen_tuple_sizes = tuple_sizes.
 Proof. reflexivity. Qed.
 
 (* ---- the functions whose whole body is one reinterpretation of the argument ---- *)
-Definition transmute_of (name : string) : option (string * string) :=
-  match find (fun r => String.eqb (fst (fst r)) name) gen_transmutes with
-  | Some (_, k, a) => Some (k, a)
-  | None => None
-  end.
 
 (* by value: the size-checked const_transmute (lib.rs:997, modelled by Views.const_transmute) *)
 Lemma tie_transmutes_by_value :
@@ -107,27 +103,15 @@ Lemma tie_transmutes_count : length gen_transmutes = 14%nat.
 Proof. reflexivity. Qed.
 
 (* ---- which methods each trait impl defines itself (all others are the trait's defaults) ---- *)
-Definition methods_of (header : string) : option (list string) :=
-  match find (fun r => String.eqb (snd (fst r)) header) gen_impl_methods with
-  | Some (_, _, ms) => Some ms
-  | None => None
-  end.
 
 Lemma tie_impl_count : length gen_impl_methods = 72%nat.
 Proof. reflexivity. Qed.
 
 (* ---- the bounds each trait impl places on its type parameters ---- *)
-Definition bounds_of (header : string) : option (list string) :=
-  match find (fun r => String.eqb (snd (fst r)) header) gen_impl_bounds with
-  | Some (_, _, bs) => Some bs
-  | None => None
-  end.
 
 (* the "structural" traits: the array has the trait exactly when the element type has it -- nothing weaker
    (an impl that compiles for fewer element types sends method calls through Deref to the slice impl,
    which relates any two lengths) and nothing stronger *)
-Definition structural_traits : list string :=
-  ["Default"; "Clone"; "PartialEq"; "Eq"; "PartialOrd"; "Ord"; "Debug"; "Hash"]%string.
 
 Lemma tie_structural_bounds :
   Forall (fun tr => bounds_of (tr ++ " for GenericArray<T,N>") = Some ["N:ArrayLength"; ("T:" ++ tr)%string])
@@ -136,9 +120,6 @@ Proof. repeat constructor. Qed.
 
 (* the unsafe auto-trait impls and Copy carry the element bound; the by-value iterator has no impl of
    Send / Sync / Copy of its own (the auto traits follow from its fields) and is Clone for T: Clone *)
-Definition mentions (needle header : string) : bool :=
-  let n := String.length needle in
-  existsb (fun i => String.eqb (substring i n header) needle) (seq 0 (String.length header)).
 
 Lemma tie_marker_bounds :
   bounds_of "unsafe Send for GenericArray<T,N>" = Some ["N:ArrayLength"; "T:Send"] /\
@@ -178,11 +159,6 @@ Lemma tie_tuple_bodies :
 Proof. reflexivity. Qed.
 
 (* ---- the inverse bounds of Lengthen / Shorten as they stand in the trait declarations ---- *)
-Definition inverse_eq_of (tr : string) : bool :=
-  match find (fun r => String.eqb (fst (fst (fst r))) tr) gen_inverse_bounds with
-  | Some (_, _, _, Some _) => true
-  | _ => false
-  end.
 
 Lemma tie_inverse_bounds :
   gen_inverse_bounds = [("Lengthen", "Longer", "Shorten", Some "Shorter"); ("Shorten", "Shorter", "Lengthen", Some "Longer")] /\
@@ -244,18 +220,8 @@ Lemma tie_lifetimes_shape : forallb (fun p => single_source_shape (snd p)) gen_s
 Proof. vm_compute. reflexivity. Qed.
 
 (* ---- thin bodies: methods whose body is one expression (coq/gen/GenSigs.v gen_thin_bodies) ---- *)
-Definition thin_of (header method : string) : option string :=
-  match find (fun r => match r with (_, h, m, _) => String.eqb h header && String.eqb m method end) gen_thin_bodies with
-  | Some (_, _, _, b) => Some b
-  | None => None
-  end.
 
 (* ---- the short multi-statement bodies (coq/gen/GenSigs.v gen_small_bodies) ---- *)
-Definition small_of (owner fn : string) : option (list string) :=
-  match find (fun r => String.eqb (fst (fst r)) owner && String.eqb (snd (fst r)) fn) gen_small_bodies with
-  | Some (_, _, b) => Some b
-  | None => None
-  end.
 
 (* the builders hand the array over exactly once: the owning builder reads its array out and forgets itself
    (its Drop must not run over moved-out elements), the intrusive one forgets itself *)
